@@ -34,6 +34,7 @@
 #include <stdio.h>
 #include <stdlib.h>
 #include <string.h>
+#include <pthread.h>
 
 // We are only implementing w=16 here.  If you want to use something
 // else, then use Jerasure with GF-Complete or ISA-L.
@@ -45,11 +46,14 @@ int *log_table = NULL;
 int *ilog_table = NULL;
 int *ilog_table_begin = NULL;
 static int init_counter = 0;
+static pthread_mutex_t init_mutex = PTHREAD_MUTEX_INITIALIZER;
 
 void rs_galois_init_tables(void)
 {
+  pthread_mutex_lock(&init_mutex);
   if (init_counter++ > 0) {
     /* already initialized */
+    pthread_mutex_unlock(&init_mutex);
     return;
   }
   log_table = (int*)malloc(sizeof(int)*FIELD_SIZE);
@@ -68,23 +72,25 @@ void rs_galois_init_tables(void)
     }
   }
   ilog_table = &ilog_table_begin[GROUP_SIZE];
+  pthread_mutex_unlock(&init_mutex);
 }
 
 void rs_galois_deinit_tables(void)
 {
+  pthread_mutex_lock(&init_mutex);
   init_counter--;
   if (init_counter < 0) {
     /* deinit when not initialized?? */
     init_counter = 0;
   } else if (init_counter > 0) {
     /* still at least one desc using it */
-    return;
   } else {
     free(log_table);
     log_table = NULL;
     free(ilog_table_begin);
     ilog_table_begin = NULL;
   }
+  pthread_mutex_unlock(&init_mutex);
 }
 
 int rs_galois_mult(int x, int y)
